@@ -118,6 +118,9 @@ type gen struct {
 	assignErr error
 	frameProps []string
 	opaques map[string]*opaqueDef
+	curCall *ssa.CallCommon
+	allocVars map[token.Pos]*ssa.Alloc
+	pendingGo []func() // effects of spawned goroutines, re-applied at the join
 	readLog map[string]bool
 }
 
@@ -132,7 +135,7 @@ func (e *Engine) newGen(fn *ssa.Function, ctr *Contract, loopMod map[*ssa.BasicB
 		reach: map[*ssa.BasicBlock]string{}, out: map[*ssa.BasicBlock]*state{},
 		loops: map[*ssa.BasicBlock]*loopInfo{}, loopMod: loopMod,
 		written: map[*ssa.BasicBlock]map[string]bool{}, oblCount: map[string]int{}, callOrd: map[string]int{},
-		debugVals: map[string]debugRef{}, assumed: map[string]bool{}, logs: map[string]int{}, embSeen: map[string]bool{}, assertedOnce: map[string]bool{},
+		debugVals: map[string]debugRef{}, assumed: map[string]bool{}, logs: map[string]int{}, embSeen: map[string]bool{}, allocVars: map[token.Pos]*ssa.Alloc{}, assertedOnce: map[string]bool{},
 	}
 	g.options.safety = true
 	if ctr != nil {
@@ -1036,7 +1039,10 @@ func (g *gen) run() {
 	}
 	// the entry state may have been extended by evaluating requires (lazy heap declarations do not change it)
 	g.entry = g.cur.clone()
-	if g.ctr != nil && g.ctr.HasAssign {
+	if g.ctr != nil && g.ctr.HasAssign && g.ctr.TrustedFrame {
+		g.assumed["frame of "+g.key+" is assumed (trusted_frame)"] = true
+	}
+	if g.ctr != nil && g.ctr.HasAssign && !g.ctr.TrustedFrame {
 		g.frameMode = true
 		env := g.specEnvAtEntry()
 		for _, a := range g.ctr.Assigns {
@@ -1400,6 +1406,9 @@ func (g *gen) assumeFrame(key string) {
 			match = g.isMapKeyOf(a, key)
 		}
 		if match {
+			if g.placeRef(a) == "*" {
+				return // every object's field may change: no frame knowledge for this array
+			}
 			conds = append(conds, not(eq(o, g.placeRef(a))))
 		}
 	}
